@@ -119,19 +119,14 @@ DocSubHolds(m, e, command, defaultStates) ==
   /\ LET st == IF Len(m.state) = 0 THEN defaultStates ELSE m.state IN Len(st) = 0 \/ DocStateIn(st, e.state)
 
 \* "If multiple match and/or ignore rules are present any of them needs to match for the rule to be matched / ignored";
-\* ignore dominates. ignDefault: whether the command-dependent state default is also read into `ignore`
-\* sub-blocks ("ignore works exactly like match") - the documentation supports both readings, see DocOutcomes.
-DocApplies(block, e, command, ignDefault) ==
-  /\ ~\E i \in DOMAIN block.ignore :
-        DocSubHolds(block.ignore[i], e, command, IF ignDefault THEN DocDefaultStates(command) ELSE <<>>)
+\* ignore dominates. The command-dependent default belongs to `match:state`; an `ignore` sub-block is satisfied by
+\* "any alerting or recording rule matching all conditions DEFINED ON ignore" - no implicit state condition.
+DocApplies(block, e, command) ==
+  /\ ~\E i \in DOMAIN block.ignore : DocSubHolds(block.ignore[i], e, command, <<>>)
   /\ IF Len(block.match) = 0 THEN DocStateIn(DocDefaultStates(command), e.state)
      ELSE \E i \in DOMAIN block.match : DocSubHolds(block.match[i], e, command, DocDefaultStates(command))
   /\ e.state # "removed"       \* removed rules are only looked at by rule/dependency
-DocOutcomes(block, e, command) == {DocApplies(block, e, command, FALSE), DocApplies(block, e, command, TRUE)}
-\* obs \in DocOutcomes(...), evaluating the second reading only when the first does not explain obs
-DocAccepts(obs, block, e, command) ==
-  \/ obs = DocApplies(block, e, command, FALSE)
-  \/ obs = DocApplies(block, e, command, TRUE)
+DocAccepts(obs, block, e, command) == obs = DocApplies(block, e, command)
 
 -----------------------------------------------------------------------------
 (* Impl side: the marker of block b is dispatched to e.                     *)
